@@ -252,11 +252,11 @@ pub(crate) fn add(ctx: &mut TulispContext) {
         condition: TulispObject,
         rest: TulispObject,
     ) -> Result<TulispObject, Error> {
-        let mut result = TulispObject::nil();
+        // The value of a while form is always nil.
         while !eval_check_null(ctx, &condition)? {
-            result = ctx.eval_progn(&rest)?;
+            ctx.eval_progn(&rest)?;
         }
-        Ok(result)
+        Ok(TulispObject::nil())
     }
 
     fn setq(ctx: &mut TulispContext, args: &TulispObject) -> Result<TulispObject, Error> {
